@@ -48,6 +48,9 @@ pub struct Script {
     pub last_pending: u8,
     /// readiness of `poll_flush`, one entry per call (`true` = not ready once); exhausted = ready
     pub fscript: VecDeque<bool>,
+    /// how many of the accepted bytes had been flushed by the last completed `poll_flush` (async write half only): a
+    /// transport that queues what it accepts — a WebSocket sink, a buffered writer — delivers nothing beyond this point
+    pub flushed_len: usize,
 }
 
 impl Script {
@@ -262,7 +265,7 @@ impl AsyncWrite for Transport {
         let mut s = self.0.lock().unwrap();
         match s.fscript.pop_front() {
             Some(true) => { s.last_pending = 2; cx.waker().wake_by_ref(); Poll::Pending },
-            _ => Poll::Ready(Ok(())),
+            _ => { s.flushed_len = s.out.len(); Poll::Ready(Ok(())) },
         }
     }
     fn poll_shutdown(self: Pin<&mut Self>, _cx: &mut Context<'_>) -> Poll<io::Result<()>> {
